@@ -451,6 +451,7 @@ def check(ctx):
         "key comparison is a strict total order (theorems are stated for Int keys; the harness key type wraps int and counts every comparison)",
         "allocation never fails",
         "iterators handed to insert/remove belong to the container and are valid (the generators only produce positions 0..size)",
+        "removeFront/removeBack/front/back are called on non-empty containers only (API precondition; harness and model reject them otherwise)",
         "self-assignment, self bulk insert and copies of MultiMap are outside this property's generators (lifetime defects D2/D5 belong to C04)",
     ]
     ctx.cov["open_statements"] = [
